@@ -118,6 +118,7 @@ def replay_events(run, events, want, stage, group_orders=None):
 
 
 INV_ALL = ["Inv_C02", "Inv_C05", "Inv_C06", "Inv_C07", "Inv_C13", "Inv_C14"]
+INV_PREDICT = ["Inv_Predict", "Inv_C13", "Inv_C14"]
 
 
 def lattice(run, tag, kinds, settings, cast, maxteams, style="dense", invariants=INV_ALL, want=None, replay=True, defects=None, group_orders=None):
